@@ -205,6 +205,12 @@ def unitOfScalar : PyVal α → PyVal α
   | .num _ => PyVal.one
   | .qty q => .qty q.units
 
+/-- `unit_of(expr, simplified)` for a scalar: with `simplified=True` the unit is returned as `expr.units.simplified`, i.e. the
+    scale factor moves into the magnitude and the unit becomes the product of SI base units (factor 1) -/
+def unitOfScalarS (simplified : Bool) : PyVal α → PyVal α
+  | .num _ => PyVal.one
+  | .qty q => if simplified then .qty ⟨((1 : Nat) : α) * q.unit.factor, ⟨((1 : Nat) : α), q.unit.dims⟩⟩ else .qty q.units
+
 /-- `rescale(value, unit)` (units.py 339-346): `value.rescale(unit)`; for a value without `.rescale`
     the value itself when `unit == 1`, else the AttributeError is re-raised.
     NOTE `unit == 1` is True for every unit of magnitude 1 (see `PyVal.eqOne`). -/
@@ -254,6 +260,9 @@ inductive Val (α : Type)
   /-- an OBJECT-dtype `np.ndarray` of dimension ≥ 1 (elements: quantities, plain numbers, …; iterating a 2-D object array
       yields object-dtype rows, i.e. `objarray`s again) -/
   | objarray (l : List (Val α))
+  /-- any other iterable that `np.array` cannot turn into a numeric array (generator, dict view, `map`/`iter` object): it falls
+      through to the scalar `else` branch with `unit_of(value) = 1` -/
+  | iterable (l : List (Val α))
   /-- a 0-d `np.ndarray` holding one scalar; `isObject` = its dtype is object (a numeric 0-d array holds a plain number) -/
   | zerod (isObject : Bool) (a : PyVal α)
 
@@ -295,6 +304,15 @@ def toUnitless (v : Val α) (newUnit : PyVal α) : Except Err (Res α) :=
     match toUnitlessList l newUnit with
     | .ok r => .ok (.list r)
     | .error e => .error e
+  | .iterable l =>
+    -- units.py 395-412 with `mag = value`, `unt = unit_of(value) = 1`: `conv = rescale(1/new_unit, pq.dimensionless)` raises
+    -- ValueError for EVERY dimensional target before any element is looked at (NOTE: also for compatible elements, also when
+    -- empty); for a dimensionless target `np.array(mag)*conv` raises TypeError and the handler converts element by element (412)
+    match rescale ((PyVal.one : PyVal α).div newUnit) (.qty Quantity.dimensionless) with
+    | .error e => .error e
+    | .ok _ => match toUnitlessList l newUnit with
+      | .ok r => .ok (.list r)
+      | .error e => .error e
   | .zerod isObject a =>
     -- 0-d array (after fix d893461): unless the ratio-1 shortcut hands a NUMERIC 0-d array back untouched,
     -- `if value.ndim == 0: return to_unitless(value[()], new_unit)` — the conversion of its single element
@@ -353,6 +371,7 @@ def isUnitless : Val α → Bool
   | .ndarray _ => true
   | .objarray _ => true               -- NOTE `is_unitless` does not look inside an ndarray (no `dimensionality`, not list/tuple/dict)
   | .zerod _ _ => true
+  | .iterable _ => true
   | .list l => isUnitlessList l
   | .dict d => isUnitlessDict d
 def isUnitlessList : List (Val α) → Bool
@@ -417,6 +436,18 @@ def unitOf : Flat α → Except Err (PyVal α)
   | .dict d => match uniform (.dict d) with
     | .error e => .error e
     | .ok (.dict ((_, h) :: _)) => .ok (unitOfScalar h)
+    | .ok _ => .error .indexError
+
+/-- `unit_of(expr, simplified)` (units.py 314-336) with the `simplified` flag handed down through the container cases -/
+def unitOfS (simplified : Bool) : Flat α → Except Err (PyVal α)
+  | .scalar a => .ok (unitOfScalarS simplified a)
+  | .list l => match uniformList l with
+    | .error e => .error e
+    | .ok [] => .error .indexError
+    | .ok (h :: _) => .ok (unitOfScalarS simplified h)
+  | .dict d => match uniform (.dict d) with
+    | .error e => .error e
+    | .ok (.dict ((_, h) :: _)) => .ok (unitOfScalarS simplified h)
     | .ok _ => .error .indexError
 
 /-- `get_physical_dimensionality(value)` (units.py 433-448): `{}` when `is_unitless(value)`, otherwise the
@@ -556,6 +587,17 @@ def fromHuman (lookup : String → Option (List (SymUnit α × Int))) : List (Hu
       | .error err => .error err
       | .ok hs => .ok (h :: hs)
 
+/-- `unit_registry_to_human_readable(None)` is `None` (units.py 210-211) -/
+def toHumanOpt : Option (List (RegEntry α)) → Except Err (Option (List (HumanEntry α)))
+  | none => .ok none
+  | some reg => (toHuman reg).map some
+
+/-- `unit_registry_from_human_readable(None)` is `None` (units.py 272-273) -/
+def fromHumanOpt (lookup : String → Option (List (SymUnit α × Int))) :
+    Option (List (HumanEntry α)) → Except Err (Option (List (RegEntry α)))
+  | none => .ok none
+  | some hs => (fromHuman lookup hs).map some
+
 /-- the quantity denoted by a registry entry: `mag * ∏ unit_i ** e_i` -/
 def RegEntry.value : RegEntry α → PyVal α
   | .num x => .num x
@@ -588,6 +630,86 @@ def compareEquality (a b : PyVal α) : Bool :=
   match addLike (· + ·) a b with
   | .error _ => false
   | .ok _ => pyEq a b
+
+/-- arguments of `compare_equality` beyond scalars: `None`, a string, a list / tuple, a dict (keys in order, values) -/
+inductive CVal (α : Type)
+  | none
+  | atom (a : PyVal α)
+  | str (s : String)
+  | seq (isTuple : Bool) (l : List (CVal α))
+  | dict (d : List (String × CVal α))
+
+mutual
+/-- Python `a == b` on such values: list/tuple equality is same type, same length and element-wise `==` (for quantities
+    `Quantity.__eq__`, see `pyEq`); dict equality needs equal keys and `==` values; `None`/str compare by identity/text -/
+def CVal.pyEq : CVal α → CVal α → Bool
+  | .none, .none => true
+  | .atom a, .atom b => Units.pyEq a b
+  | .str s, .str t => s = t
+  | .seq ta la, .seq tb lb => (ta == tb) && CVal.pyEqList la lb
+  | .dict da, .dict db => CVal.pyEqDict da db
+  | _, _ => false
+def CVal.pyEqList : List (CVal α) → List (CVal α) → Bool
+  | [], [] => true
+  | x :: xs, y :: ys => CVal.pyEq x y && CVal.pyEqList xs ys
+  | _, _ => false
+def CVal.pyEqDict : List (String × CVal α) → List (String × CVal α) → Bool
+  | [], [] => true
+  | (k, x) :: xs, (k', y) :: ys => (k = k') && CVal.pyEq x y && CVal.pyEqDict xs ys
+  | _, _ => false
+end
+
+/-- `len(x)`: `none` = TypeError (None and scalars have no length; a str has) -/
+def CVal.len? : CVal α → Option Nat
+  | .none => Option.none
+  | .atom _ => Option.none
+  | .str s => some s.length
+  | .seq _ l => some l.length
+  | .dict d => some d.length
+
+/-- what iterating yields: elements of a sequence, KEYS of a dict, characters of a str -/
+def CVal.iter : CVal α → List (CVal α)
+  | .seq _ l => l
+  | .dict d => d.map fun p => .str p.1
+  | .str s => s.toList.map fun c => .str (String.singleton c)
+  | _ => []
+
+/-- outcome of `a + b` in `compare_equality`: `some true` = no exception, `some false` = ValueError, `none` = TypeError.
+    (scalars: `addLike`; two lists, two tuples or two strings concatenate; everything else involving None, a dict, mixed
+    sequence types or a str with a number is a TypeError) -/
+def CVal.addOutcome : CVal α → CVal α → Option Bool
+  | .atom a, .atom b => match addLike (· + ·) a b with
+    | .ok _ => some true
+    | .error _ => some false
+  | .seq ta _, .seq tb _ => if ta == tb then some true else Option.none
+  | .str _, .str _ => some true
+  | _, _ => Option.none
+
+/-- `compare_equality(a, b)` (units.py 483-519) beyond scalars.  `fuel` bounds the recursion depth (nesting depth of the arguments).
+    TypeError of `a + b`: `len(a)` failing → `a == b`; otherwise `len(a) != len(b)` (a `len(b)` failing is an uncaught TypeError)
+    → False, else `all(compare_equality(_a, _b) for … in zip(a, b))` — NOTE `zip` over two dicts pairs their KEYS only. -/
+def compareEqualityC : Nat → CVal α → CVal α → Except Err Bool
+  | 0, _, _ => .error .typeError
+  | fuel + 1, a, b =>
+    match CVal.addOutcome a b with
+    | some false => .ok false
+    | some true => .ok (CVal.pyEq a b)
+    | Option.none =>
+      match a.len? with
+      | Option.none => .ok (CVal.pyEq a b)
+      | some la => match b.len? with
+        | Option.none => .error .typeError
+        | some lb =>
+          if la ≠ lb then .ok false
+          else
+            let rec go : List (CVal α) → List (CVal α) → Except Err Bool
+              | x :: xs, y :: ys => match compareEqualityC fuel x y with
+                | .error e => .error e
+                | .ok false => .ok false
+                | .ok true => go xs ys
+              | _, _ => .ok true
+            go a.iter b.iter
+
 
 /-- `linspace(start, stop, num)` (units.py 548-562) -/
 def linspace (start stop : PyVal α) (num : Nat) : Except Err (List (PyVal α)) :=
@@ -765,6 +887,35 @@ def allcloseList (a b : List (PyVal α)) (rtol : α) (atol : Option (PyVal α)) 
         | .ok true => go xs ys
       | _, _ => true
     go a b
+
+/-- `allclose(a, b, …)` on two `quantities` ARRAYS of equal length ≥ 1, or a scalar `a` against an array `b` (`aScalar`; the list
+    then holds that one scalar) (units.py 529, 539-553): `d = abs(a - b)` is an array; a dimension mismatch of `a - b` sends the
+    call to the list branch, where every pair is False; `lim += atol` of another dimension raises ValueError (not swallowed here);
+    otherwise `np.all` of the element-wise tests `d_i <= lim_i` (`lim` scalar when `a` is). -/
+def allcloseArrays (aScalar : Bool) (a b : List (PyVal α)) (rtol : α) (atol : Option (PyVal α)) : Except Err Bool :=
+  let as : List (PyVal α) := if aScalar then (match a with | x :: _ => b.map fun _ => x | [] => []) else a
+  if as.length ≠ b.length then .ok false
+  else
+    let rec go : List (PyVal α) → List (PyVal α) → Bool → Except Err Bool
+      | x :: xs, y :: ys, acc => match allcloseScalar x y rtol atol with
+        | .error e => .error e
+        | .ok r => go xs ys (acc && r)
+      | _, _, acc => .ok acc
+    go as b true
+
+/-- an argument of `allclose` that may be an `UncertainQuantity` (value ± uncertainty) -/
+inductive MaybeUncertain (α : Type)
+  | plain (v : PyVal α)
+  | uncertain (q : Quantity α) (uncertainty : α)
+
+/-- `pq.Quantity(a)`: the nominal quantity, the uncertainty is dropped (units.py 524-527) -/
+def MaybeUncertain.strip : MaybeUncertain α → PyVal α
+  | .plain v => v
+  | .uncertain q _ => .qty q
+
+/-- `allclose` with possibly uncertain arguments (units.py 524-527, then 529-546) -/
+def allcloseU (a b : MaybeUncertain α) (rtol : α) (atol : Option (PyVal α)) : Except Err Bool :=
+  allcloseScalar a.strip b.strip rtol atol
 
 end Ordered
 
